@@ -162,15 +162,17 @@ func MannWhitneyUTest(x1, x2 []float64, alt LocationHypothesis) (*MannWhitneyUTe
 	U2 := float64(n1*n2) - U1
 	Usmall := math.Min(U1, U2)
 
+	if len(T) == 1 {
+		// All values are equal. Test is meaningless. (Decided
+		// here for both regimes: for large samples the
+		// rounding of the tie correction can leave σ_U != 0.)
+		return nil, ErrSamplesEqual
+	}
+
 	var p float64
 	if !hasTies && n1 <= MannWhitneyExactLimit && n2 <= MannWhitneyExactLimit ||
 		hasTies && n1 <= MannWhitneyTiesExactLimit && n2 <= MannWhitneyTiesExactLimit {
 		// Use exact U distribution. U1 will be an integer.
-		if len(T) == 1 {
-			// All values are equal. Test is meaningless.
-			return nil, ErrSamplesEqual
-		}
-
 		dist := UDist{N1: n1, N2: n2, T: T}
 		switch alt {
 		case LocationDiffers:
